@@ -3,7 +3,7 @@
 set -e
 cd "$(dirname "$0")"
 mkdir -p .work evidence replays
-(cd lean && lake build)
+(cd lean && lake build && lake build $(ls ErrModel/Props/*.lean | sed "s#/#.#g; s#\.lean\$##"))
 export GOFLAGS=-mod=mod GOPROXY=off GOSUMDB=off GOTOOLCHAIN=local
 cp /repo/go.sum go/go.sum
 (cd go && go build -tags verif -o ../.work/harness-setup ./harness && rm -f ../.work/harness-setup)
